@@ -63,3 +63,8 @@ chk("C13", "fault_enumeration",
     "limits {8, 64, 1024} (thorough 9 limits) x sizes {L-1, L, L+1, 4L, 1 MiB, 4 MiB} x 11 client/server pairings x declaration {truthful, absent (chunked / streamed), smaller, larger}; a counting IO handler and a counting function must see nothing above the limit, at or below it the call works, above it the real client gets the too-large error.",
     "Real sockets on loopback; the caller-side error for large refused bodies depends on a write/read race (recorded as a known finding).",
     "exhaustive enumeration of limit x size x declaration x transport", "DESIGN.md 4 C13", "netlab")
+
+chk("C02", "exploration",
+    "Exhaustive inside a stated scope: every pointer graph on n <= 4 nodes with two outgoing edges per node over struct-field and interface edges, n <= 3 (thorough 4) over slice, map and pointer-to-pointer/array edges, decoded into typed and interface{} destinations; every sequence of <= 3 of 20 reference-consuming item kinds followed by a repeated string and a shared pointer in 4 container positions. Oracles: decoded graph has the unfolding of the original (bisimulation on Go values), the stream parsed by the independent reader denotes the graph, each distinct reachable object is written once, termination.",
+    "Scope hypothesis (node count, out-degree 2); gen.Bisimilar and hpref are the trusted oracles.",
+    "bounded-exhaustive enumeration of pointer graphs and reference-table prefixes against bisimulation and an independent reader", "DESIGN.md 3 C02", "enum")
